@@ -455,6 +455,31 @@ def check(run, replay=None):
                                 " + ".join([R(float(res.link["flowrate"].loc[t, l])) for l in outs] or ["0"]) + ")"
                         add("Rabs (%s - %s) <= %s" % (terms, R(float(res.node["demand"].loc[t, j["name"]])), tolq),
                             {"check": "junction balance on the %s report" % label, "spec": spec, "time": int(t), "junction": j["name"]}, True)
+                    if label == "wntr":
+                        # every pump and valve obeys the C02 row of its reported status (pipes and TCVs are done for both engines below)
+                        for ln_, link_ in wn.links():
+                            if link_.link_type == "Pipe" or (link_.link_type == "Valve" and link_.valve_type == "TCV"):
+                                continue
+                            q = float(res.link["flowrate"].loc[t, ln_])
+                            st_ = int(res.link["status"].loc[t, ln_])
+                            hs, he = float(res.node["head"].loc[t, link_.start_node_name]), float(res.node["head"].loc[t, link_.end_node_name])
+                            if st_ != 0 and abs(q) < 1e-4:
+                                continue
+                            setting_ = float(res.link["setting"].loc[t, ln_]) if link_.link_type == "Valve" else 0.0
+                            model_, margs_, shape_ = c02.link_law(wn, ln_, link_, q, hs, he, st_, setting_)
+                            add("Rabs (%s %s) <= 1 / 100000" % (model_, margs_),
+                                {"check": "%s law on the wntr report" % shape_, "spec": spec, "time": int(t), "link": ln_, "q": q, "hs": hs, "he": he, "status": st_}, True)
+                    else:
+                        # EPANET: an active PRV / PSV holds its setting
+                        for v in spec["valves"]:
+                            if v["type"] not in ("PRV", "PSV") or int(res.link["status"].loc[t, v["name"]]) != 2:
+                                continue
+                            node = v["end"] if v["type"] == "PRV" else v["start"]
+                            elev = next(j["elevation"] for j in spec["junctions"] if j["name"] == node)
+                            kset = float(res.link["setting"].loc[t, v["name"]])
+                            hn = float(res.node["head"].loc[t, node])
+                            add("Rabs (%s - %s - %s) <= 1 / 50" % (R(hn), R(elev), R(kset)),
+                                {"check": "%s holds its setting on the epanet report" % v["type"], "spec": spec, "time": int(t), "valve": v["name"], "head": hn, "setting": kset}, True)
                     for v in spec["valves"]:
                         q = float(res.link["flowrate"].loc[t, v["name"]])
                         if v["type"] != "TCV" or int(res.link["status"].loc[t, v["name"]]) != 2 or abs(q) < 1e-4:
